@@ -40,7 +40,16 @@ def find_class_chains(fn_node: ast.AST, subject: Optional[str] = None) -> List[T
     for n in A.walk_no_nested(fn_node):
         if isinstance(n, ast.If) and id(n) not in skip:
             subj = class_test_subject(n.test)
-            if subj is None or (subject is not None and subj != subject):
+            if subj is None:
+                # a chain that opens with a test of another kind (`if not any(fields(node)): ..`) and goes on with
+                # class tests: the opening arm is opaque - any class may take it
+                arms0 = chain_arms(n)
+                subs = [class_test_subject(a.test) for a in arms0 if a.test is not None]
+                subs = [x for x in subs if x is not None]
+                if len(subs) >= 2 and len(set(subs)) == 1 and (subject is None or subs[0] == subject):
+                    out.append((subs[0], arms0))
+                continue
+            if subject is not None and subj != subject:
                 continue
             arms = chain_arms(n)
             out.append((subj, arms))
